@@ -8,6 +8,7 @@ import (
 	"mcverif/props/c03"
 	"mcverif/props/c04"
 	"mcverif/props/c05"
+	"mcverif/props/c06"
 	"mcverif/props/c07"
 	"mcverif/props/c08"
 	"mcverif/props/c09"
@@ -26,6 +27,7 @@ var Registry = map[string]engine.Spec{
 	"C03": c03.Spec,
 	"C04": c04.Spec,
 	"C05": c05.Spec,
+	"C06": c06.Spec,
 	"C07": c07.Spec,
 	"C08": c08.Spec,
 	"C09": c09.Spec,
